@@ -22,6 +22,50 @@ fn schema_json(compactable: bool) -> Value {
   serde_json::to_value(schema_s3(compactable)).unwrap()
 }
 
+/// Flag-matrix schemas: the compactable S3 schema with exactly one field (top-level or nested)
+/// switched to `stored: false` under every combination of its `indexed` / `fast` flags (nullable,
+/// so that a rebuild from stored values is not rejected by accident). The property leaves the
+/// choice to the implementation: it may compact (then nothing observable may change) or refuse
+/// (then nothing at all may change).
+fn flag_matrix() -> Vec<(String, Value)> {
+  let mut out = Vec::new();
+  let base = schema_json(true);
+  // (section, index in section, nested property index or usize::MAX, flags that exist)
+  let slots: Vec<(&str, usize, usize, &[&str])> = vec![
+    ("text_fields", 1, usize::MAX, &["indexed"]),
+    ("keyword_fields", 0, usize::MAX, &["indexed", "fast"]),
+    ("numeric_fields", 0, usize::MAX, &["fast"]),
+    ("numeric_fields", 1, usize::MAX, &["fast"]),
+    ("nested_fields", 0, 0, &["indexed", "fast"]),
+    ("nested_fields", 0, 2, &["fast"]),
+  ];
+  for (section, i, j, flags) in slots {
+    for mask in 0..(1usize << flags.len()) {
+      let mut sj = base.clone();
+      let f = if j == usize::MAX { &mut sj[section][i] } else { &mut sj[section][i]["fields"][j] };
+      f["stored"] = json!(false);
+      f["nullable"] = json!(true);
+      let mut label = format!("{}{}", f["name"].as_str().unwrap_or("?"), if j == usize::MAX { "" } else { "(nested)" });
+      for (b, flag) in flags.iter().enumerate() {
+        let on = mask & (1 << b) != 0;
+        f[*flag] = json!(on);
+        label.push_str(&format!(" {flag}={on}"));
+      }
+      if serde_json::from_value::<searchlite_core::Schema>(sj.clone()).is_ok() {
+        out.push((format!("S3-unstored[{label}]"), sj));
+      }
+    }
+  }
+  out
+}
+
+#[derive(Clone, Copy, PartialEq, Debug)]
+enum Expect {
+  Compacts,
+  Refuses,
+  Either,
+}
+
 fn shapes() -> Vec<Value> {
   vec![
     json!({"body": "alpha one", "note": "first", "tag": ["x", "Y"], "hidden": "h1", "n": 1, "f": 0.5, "c": [{"a": "p", "s": "secret", "k": 1}, {"a": "q"}]}),
@@ -117,7 +161,7 @@ fn mk_world(shape_idx: &[usize], ids: &[usize], layout: &[usize], deleted: &[&st
     .with_deleted(deleted)
 }
 
-fn check(world: &World, bat: &[(String, Value)], compactable: bool) -> Result<(usize, bool), String> {
+fn check(world: &World, bat: &[(String, Value)], expect: Expect) -> Result<(usize, bool), String> {
   let idx = world.build();
   let before_manifest = idx.manifest();
   let nseg = before_manifest.segments.len();
@@ -129,17 +173,19 @@ fn check(world: &World, bat: &[(String, Value)], compactable: bool) -> Result<(u
   };
   let (st2, ob2) = observe(&idx, bat).map_err(|e| format!("after compact: {e}"))?;
   let after = idx.manifest();
-  if !compactable && nseg > 1 {
-    // must refuse and leave everything untouched
-    if res.is_ok() {
-      return Err("compact succeeded although an indexed field is not stored (its data cannot be rebuilt)".into());
-    }
+  let refused = res.is_err();
+  if expect == Expect::Refuses && nseg > 1 && !refused {
+    return Err("compact succeeded although an indexed field is not stored (its data cannot be rebuilt)".into());
+  }
+  if expect == Expect::Compacts && refused {
+    return Err(format!("compact failed: {:#}", res.as_ref().err().unwrap()));
+  }
+  if refused {
+    // a refusal leaves everything untouched
     let segs = |m: &searchlite_core::Manifest| m.segments.iter().map(|s| (s.id.clone(), s.deleted_docs.clone())).collect::<Vec<_>>();
     if segs(&before_manifest) != segs(&after) {
       return Err("refused compaction changed the manifest".into());
     }
-  } else if let Err(e) = &res {
-    return Err(format!("compact failed: {e:#}"));
   } else if nseg > 1 {
     if after.segments.len() != 1 {
       return Err(format!("after compaction the manifest has {} segments", after.segments.len()));
@@ -167,7 +213,7 @@ fn check(world: &World, bat: &[(String, Value)], compactable: bool) -> Result<(u
   }
   // reopen-independent: a second compaction is a no-op
   let nontrivial = ob1.values().filter(|r| matches!(r, Ok(v) if !v.is_empty() && v.len() < st1.len())).count();
-  Ok((nontrivial, nseg > 1))
+  Ok((nontrivial, nseg > 1 && !refused))
 }
 
 pub fn run(ctx: &Ctx) -> i32 {
@@ -178,9 +224,20 @@ pub fn run(ctx: &Ctx) -> i32 {
     rep.set_replaying(true);
     let v: Value = serde_json::from_slice(&std::fs::read(path).expect("replay file")).expect("json");
     let world = World::from_json(&v["case"]["world"]);
-    let compactable = v["case"]["compactable"].as_bool().unwrap_or(true);
-    let a = check(&world, &bat, compactable).err();
-    let b = check(&world, &bat, compactable).err();
+    let expect = match v["case"]["expect"].as_str() {
+      Some("Refuses") => Expect::Refuses,
+      Some("Either") => Expect::Either,
+      Some(_) => Expect::Compacts,
+      None => {
+        if v["case"]["compactable"].as_bool().unwrap_or(true) {
+          Expect::Compacts
+        } else {
+          Expect::Refuses
+        }
+      }
+    };
+    let a = check(&world, &bat, expect).err();
+    let b = check(&world, &bat, expect).err();
     if a.is_some() != b.is_some() {
       vcore::ev::machinery_failure("NONDETERMINISM on replay");
     }
@@ -197,7 +254,7 @@ pub fn run(ctx: &Ctx) -> i32 {
   }
   let nshapes = shapes().len();
   let max_docs = if quick { 3 } else { 4 };
-  let mut worlds: Vec<(World, bool)> = Vec::new();
+  let mut worlds: Vec<(World, Expect)> = Vec::new();
   for n in 2..=max_docs {
     for seq in sequences(&(0..nshapes).collect::<Vec<_>>(), n, n) {
       // id patterns: all distinct; the last document re-uses the first id (an upsert across commits)
@@ -212,7 +269,7 @@ pub fn run(ctx: &Ctx) -> i32 {
           }
           let dels: Vec<Vec<&str>> = if n >= 3 { vec![vec![], vec!["B"]] } else { vec![vec![]] };
           for d in dels {
-            worlds.push((mk_world(&seq, &ids, &lay, &d, true), true));
+            worlds.push((mk_world(&seq, &ids, &lay, &d, true), Expect::Compacts));
           }
         }
       }
@@ -220,16 +277,49 @@ pub fn run(ctx: &Ctx) -> i32 {
   }
   // refusal worlds: `note` indexed but not stored
   for seq in sequences(&(0..nshapes).collect::<Vec<_>>(), 2, 2) {
-    worlds.push((mk_world(&seq, &[0, 1], &[1, 1], &[], false), false));
-    worlds.push((mk_world(&seq, &[0, 1], &[2], &[], false), false));
+    worlds.push((mk_world(&seq, &[0, 1], &[1, 1], &[], false), Expect::Refuses));
+    worlds.push((mk_world(&seq, &[0, 1], &[2], &[], false), Expect::Refuses));
   }
+  // flag matrix: one unstored field under every indexed / fast combination, top-level and nested.
+  // The implementation may compact or refuse; either way nothing observable may change.
+  let matrix = flag_matrix();
+  let sh = shapes();
+  for (name, sj) in &matrix {
+    let mut push = |seq: &[usize], lay: &[usize], del: &[&str]| {
+      let docs: Vec<Value> = seq
+        .iter()
+        .enumerate()
+        .map(|(i, s)| {
+          let mut d = sh[*s].clone();
+          d["_id"] = json!(id_of(i));
+          d
+        })
+        .collect();
+      worlds.push((World::new(name, sj.clone(), docs).with_layout(lay.to_vec()).with_deleted(del), Expect::Either));
+    };
+    for seq in sequences(&(0..nshapes).collect::<Vec<_>>(), 2, 2) {
+      push(&seq, &[1, 1], &[]);
+    }
+    if !quick {
+      for seq in sequences(&(0..nshapes).collect::<Vec<_>>(), 3, 3) {
+        push(&seq, &[2, 1], &[]);
+        push(&seq, &[1, 1, 1], &["B"]);
+      }
+    } else {
+      for seq in sequences(&[0usize, 1, 4], 3, 3) {
+        push(&seq, &[2, 1], &["A"]);
+      }
+    }
+  }
+  let matrix_worlds = worlds.iter().filter(|(_, e)| *e == Expect::Either).count();
   let evals = AtomicU64::new(0);
   let nontriv = AtomicU64::new(0);
   let compacted = AtomicU64::new(0);
   let outcomes: Mutex<HashSet<String>> = Mutex::new(HashSet::new());
-  worlds.par_iter().for_each(|(w, compactable)| {
+  worlds.par_iter().for_each(|(w, expect)| {
+    let compactable = format!("{expect:?}");
     evals.fetch_add(1, Ordering::Relaxed);
-    match check(w, &bat, *compactable) {
+    match check(w, &bat, *expect) {
       Ok((nt, did)) => {
         nontriv.fetch_add(nt as u64, Ordering::Relaxed);
         if did {
@@ -240,7 +330,7 @@ pub fn run(ctx: &Ctx) -> i32 {
           rep.sample(json!({"world": w.describe(), "observations": bat.len(), "nontrivial_observations": nt}));
         }
       }
-      Err(what) => rep.fail(None, &format!("{}: {}", w.describe(), what), json!({"engine": "inputmc-compact", "world": w.to_json(), "compactable": compactable})),
+      Err(what) => rep.fail(None, &format!("{}: {}", w.describe(), what), json!({"engine": "inputmc-compact", "world": w.to_json(), "expect": compactable})),
     }
   });
   rep.add_evals(evals.load(Ordering::Relaxed));
@@ -250,8 +340,11 @@ pub fn run(ctx: &Ctx) -> i32 {
   }
   let cov = vcore::cov! {
     "distinct_nontrivial" => nontriv.load(Ordering::Relaxed),
-    "rule" => "worlds = every sequence of 2..n document shapes (text single/multi/empty, nullable text null, keyword single/multi/case variants, i64/f64 single/multi, nested array / single object / null / empty array with null and unstored properties) x {distinct ids, last document upserts the first} x every layout with >= 2 segments x {no deletion, one deletion}; each world is observed through match_all+stored and a battery of term / query_string / phrase / prefix / wildcard / bool queries and keyword / range / nested / Not / Or filters, compacted with the real Index::compact and observed again. distinct_nontrivial counts observations whose hit set is a non-empty proper subset of the live documents. Refusal worlds (an indexed field that is not stored) must return Err and keep manifest and observations unchanged.",
+    "rule" => "worlds = every sequence of 2..n document shapes (text single/multi/empty, nullable text null, keyword single/multi/case variants, i64/f64 single/multi, nested array / single object / null / empty array with null and unstored properties) x {distinct ids, last document upserts the first} x every layout with >= 2 segments x {no deletion, one deletion}; each world is observed through match_all+stored and a battery of term / query_string / phrase / prefix / wildcard / bool queries and keyword / range / nested / Not / Or filters, compacted with the real Index::compact and observed again. distinct_nontrivial counts observations whose hit set is a non-empty proper subset of the live documents. Refusal worlds (an indexed field that is not stored) must return Err and keep manifest and observations unchanged. Outcome kinds are (expectation, compacted?).",
     "worlds" => worlds.len(),
+    "flag_matrix_schemas" => matrix.iter().map(|(n, _)| n.clone()).collect::<Vec<_>>(),
+    "flag_matrix_worlds" => matrix_worlds,
+    "flag_matrix_rule" => "S3 with exactly one field (note, tag, n, f, nested c.a, nested c.k) set stored:false, nullable, under every combination of its indexed / fast flags; compact may succeed (then stored contents, all observations and the one-segment manifest conditions must hold) or refuse (then manifest and observations are unchanged)",
     "worlds_compacted" => compacted.load(Ordering::Relaxed),
     "observations_per_world" => bat.len() + 1,
     "max_docs" => max_docs,
